@@ -250,75 +250,11 @@ Proof. intros (H1 & _ & H3 & H4). split; [now apply wf_flat|split; assumption]. 
 Theorem consolidate_ok A np tofile t : tree_side A np t ->
   consolidate_tree A np tofile t
   = Ok {| cur := outmeta_t tofile (fst (mark_t A np t 0));
-          snap := Some {| sn_meta := fst (meta_t A np t 0); sn_storage := encode A np (flat t) |} |}.
+          snap := Some {| sn_meta := fst (meta_t A np (outmeta_t tofile (fst (mark_t A np t 0))) 0);
+                          sn_storage := encode A np (flat t) |} |}.
 Proof.
   intros Hs. unfold consolidate_tree.
   pose proof (proj1 (view_ok_all A np tofile) t [] [] (Forall_nil _) (tree_side_side _ _ _ Hs)) as H.
   cbn [app lspecs map] in H. rewrite app_nil_r in H. change (total A np []) with 0 in H. rewrite H. reflexivity.
 Qed.
 
-(* the pickled copy of a freshly consolidated tensordict: the SOURCE's content, re-locked as the source was, keys regrouped *)
-Theorem pickle_of_consolidated A np tofile t st : tree_side A np t ->
-  consolidate_tree A np tofile t = Ok st ->
-  pickle_roundtrip st = Ok {| cur := reorder_t (relock_t false (fst (mark_t A np t 0))); snap := snap st |}.
-Proof.
-  intros Hs Hc. rewrite (consolidate_ok _ _ _ _ Hs) in Hc. injection Hc as <-.
-  unfold pickle_roundtrip. cbn [snap sn_storage sn_meta].
-  destruct Hs as (H1 & H2 & H3 & H4).
-  pose proof (proj1 (rebuild_ok A np) t [] [] false (Forall_nil _) H2) as H.
-  cbn [app lspecs map] in H. rewrite app_nil_r in H. change (total A np []) with 0 in H.
-  rewrite H; [reflexivity|]. split; [now apply wf_flat|split; assumption].
-Qed.
-
-(* no node locked *)
-Fixpoint unlocked_t (t : tree) : bool := match t with Node m f => negb (m_locked m) && unlocked_f f end
-with unlocked_f (f : forest) : bool :=
-  match f with
-  | FNil => true
-  | FLeaf _ _ _ r | FNonT _ _ _ r => unlocked_f r
-  | FSub _ t r => unlocked_t t && unlocked_f r
-  end.
-
-Lemma set_locked_false_id m : m_locked m = false -> set_locked m false = m.
-Proof. destruct m; cbn; now intros ->. Qed.
-
-Lemma unlocked_mark A np :
-  (forall t s, unlocked_t (fst (mark_t A np t s)) = unlocked_t t) /\
-  (forall f s, unlocked_f (fst (mark_f A np f s)) = unlocked_f f).
-Proof.
-  apply tree_forest_ind; cbn [mark_t mark_f unlocked_t unlocked_f].
-  - intros m f IH s. specialize (IH s). destruct (mark_f A np f s). cbn [fst unlocked_t] in *. now rewrite IH.
-  - reflexivity.
-  - intros k l v r IH s. specialize (IH (s + flat_size A np (spec_of l))).
-    destruct (mark_f A np r (s + flat_size A np (spec_of l))). exact IH.
-  - intros k p bs r IH s. specialize (IH s). destruct (mark_f A np r s). exact IH.
-  - intros k t IHt r IHr s. specialize (IHt s). destruct (mark_t A np t s) as [t' mid]. specialize (IHr mid).
-    destruct (mark_f A np r mid). cbn [fst unlocked_f] in *. now rewrite IHt, IHr.
-Qed.
-
-Lemma unlocked_fix :
-  (forall t, unlocked_t t = true -> relock_t false t = t /\ outmeta_t false t = t) /\
-  (forall f, unlocked_f f = true -> relock_f false f = f /\ outmeta_f false f = f).
-Proof.
-  apply tree_forest_ind; cbn [unlocked_t unlocked_f relock_t relock_f outmeta_t outmeta_f].
-  - intros m f IH H. apply andb_true_iff in H as [H1 H2]. apply negb_true_iff in H1.
-    destruct (IH H2) as [E1 E2]. rewrite H1. cbn [orb]. rewrite E1, E2.
-    split; [now rewrite set_locked_false_id|]. unfold out_meta. destruct m; cbn in *. now subst.
-  - auto.
-  - intros k l v r IH H. destruct (IH H) as [E1 E2]. now rewrite E1, E2.
-  - intros k p bs r IH H. destruct (IH H) as [E1 E2]. now rewrite E1, E2.
-  - intros k t IHt r IHr H. apply andb_true_iff in H as [H1 H2].
-    destruct (IHt H1) as [E1 E2], (IHr H2) as [E3 E4]. now rewrite E1, E2, E3, E4.
-Qed.
-
-(* partial: nothing locked at consolidation time, in-memory target: the pickled copy IS the consolidated tensordict
-   (same metadata, same leaves, same views), keys regrouped *)
-Theorem pickle_fresh_partial A np t st : tree_side A np t -> unlocked_t t = true ->
-  consolidate_tree A np false t = Ok st ->
-  pickle_roundtrip st = Ok {| cur := reorder_t (cur st); snap := snap st |}.
-Proof.
-  intros Hs Hu Hc. rewrite (pickle_of_consolidated _ _ _ _ _ Hs Hc).
-  rewrite (consolidate_ok _ _ _ _ Hs) in Hc. injection Hc as <-. cbn [cur snap].
-  assert (Hm : unlocked_t (fst (mark_t A np t 0)) = true) by now rewrite (proj1 (unlocked_mark A np)).
-  destruct (proj1 unlocked_fix _ Hm) as [E1 E2]. now rewrite E1, E2.
-Qed.
